@@ -342,6 +342,23 @@ def hist_c16(out, sim, rng, n, extra):
             ops.append('in-resend[%d,%d]' % (lo, hi))
             s.inject(s.peer_msg('2', [(7, lo), (16, hi)]))
             ok = account('inbound-resend-request')
+        elif k >= 0.96 and restarts < 2 and s.peer_seq > 2 and not (role == 'A' and persist == 'mem'):
+            # an inbound number that is too low (no PossDupFlag) makes the session log out; the Logout is a new message like any other,
+            # and the Logon of the next connection continues after it
+            restarts += 1
+            ops.append('in-too-low+restart')
+            s.inject(s.peer_msg('0', seq=s.peer_seq - rng.randint(1, 2)))
+            account('forced-logout')
+            if s.q().get('shutdown') != '1':
+                out.v('oracle:no-logout-on-too-low-number', 'case %d: state %s' % (n, s.q().get('state')), s)
+                break
+            out.stat('forced_logouts')
+            check_store(out, s, n, stored_expect, ops)
+            s.close()
+            r = s.new(role, s.cfg['sci'], s.cfg['tci'], hb, persist, purge=0)
+            s.handshake(r, hb)
+            ok = account('restart-after-forced-logout')
+            out.stat('restarts')
         elif restarts < 2 and not (role == 'A' and persist == 'mem'):
             restarts += 1
             ops.append('restart')
